@@ -75,6 +75,14 @@ fn pat(p: &Pat) -> R<String> {
     })
 }
 
+thread_local! { static FOR_LOOPS: std::cell::Cell<usize> = std::cell::Cell::new(0); }
+/// Coq keywords that are field names in the Rust source
+fn field_name(n: &str) -> String { if ["end", "in", "at", "with", "as", "type"].contains(&n) { format!("{}_", n) } else { n.to_string() } }
+/// does the identifier occur in the Gallina text?
+fn mentions(text: &str, id: &str) -> bool {
+    text.split(|c: char| !(c.is_alphanumeric() || c == '_' || c == '\'')).any(|w| w == id)
+}
+
 fn is_match(scrut: &str, p: &str) -> String {
     format!("(match {} with {} => true | _ => false end)", scrut, p)
 }
@@ -87,6 +95,22 @@ fn expr(e: &Expr) -> R<String> {
             _ => return Err("literal outside subset".into()),
         },
         Expr::Path(p) => path_name(&p.path),
+        Expr::Tuple(t) if !t.elems.is_empty() => {
+            let mut a = vec![];
+            for e in &t.elems {
+                a.push(expr(e)?);
+            }
+            format!("({})", a.join(", "))
+        }
+        // `self.field`: the fields of the receiver a kernel reads are its parameters; `x.field`: a record projection
+        Expr::Field(f) if matches!(&*f.base, Expr::Path(p) if p.path.is_ident("self")) => match &f.member {
+            Member::Named(id) => field_name(&id.to_string()),
+            _ => return Err("tuple field outside subset".into()),
+        },
+        Expr::Field(f) if matches!(&*f.base, Expr::Path(_)) => match &f.member {
+            Member::Named(id) => format!("({} {})", field_name(&id.to_string()), expr(&f.base)?),
+            _ => return Err("tuple field outside subset".into()),
+        },
         Expr::Paren(p) => expr(&p.expr)?,
         Expr::Reference(r) => expr(&r.expr)?,
         Expr::Unary(u) => match u.op {
@@ -97,6 +121,11 @@ fn expr(e: &Expr) -> R<String> {
         Expr::Binary(b) => match b.op {
             BinOp::And(_) => format!("(andb {} {})", expr(&b.left)?, expr(&b.right)?),
             BinOp::Or(_) => format!("(orb {} {})", expr(&b.left)?, expr(&b.right)?),
+            // comparisons of naturals (byte offsets)
+            BinOp::Lt(_) => format!("(Nat.ltb {} {})", expr(&b.left)?, expr(&b.right)?),
+            BinOp::Gt(_) => format!("(Nat.ltb {} {})", expr(&b.right)?, expr(&b.left)?),
+            BinOp::Le(_) => format!("(Nat.leb {} {})", expr(&b.left)?, expr(&b.right)?),
+            BinOp::Ge(_) => format!("(Nat.leb {} {})", expr(&b.right)?, expr(&b.left)?),
             _ => return Err(format!("binary operator outside subset: {}", b.to_token_stream())),
         },
         Expr::Call(c) => {
@@ -122,7 +151,7 @@ fn expr(e: &Expr) -> R<String> {
         // a panic is a distinguished value of the mirrored result type (FmAst.rs_unreachable); the theorems show it is never returned
         Expr::Macro(m) if m.mac.path.is_ident("unreachable") => "rs_unreachable".to_string(),
         // accessors mirrored as functions of FmAst.v; `.iter().next()` is the head of a list
-        Expr::MethodCall(m) if m.args.is_empty() && ["prefix", "variables", "lhs"].contains(&m.method.to_string().as_str()) => format!("({} {})", m.method, expr(&m.receiver)?),
+        Expr::MethodCall(m) if m.args.is_empty() && ["prefix", "variables", "lhs", "start_position", "end_position", "bytes"].contains(&m.method.to_string().as_str()) => format!("({} {})", m.method, expr(&m.receiver)?),
         Expr::MethodCall(m) if m.args.is_empty() && m.method == "iter" => expr(&m.receiver)?,
         Expr::MethodCall(m) if m.args.is_empty() && m.method == "next" => format!("(hd_error {})", expr(&m.receiver)?),
         Expr::Macro(m) if m.mac.path.is_ident("matches") => {
@@ -155,8 +184,13 @@ fn block(stmts: &[Stmt]) -> R<String> {
         None => Err("empty block in value position".into()),
         Some((Stmt::Expr(e, None), [])) => expr(e),
         Some((Stmt::Expr(Expr::Return(r), _), _)) => expr(r.expr.as_ref().ok_or("return without value")?),
-        Some((Stmt::Expr(Expr::If(i), _), rest)) => if_stmt(i, &block(rest)?),
+        Some((Stmt::Expr(Expr::If(i), _), rest)) if !rest.is_empty() => if_stmt(i, &block(rest)?),
         Some((Stmt::Local(l), rest)) => local_stmt(l, &block(rest)?),
+        Some((Stmt::Expr(Expr::Match(m), Some(_)), rest)) => { let k2 = block(rest)?; arms_k(&expr(&m.expr)?, &m.arms, &k2) }
+        Some((Stmt::Expr(Expr::ForLoop(_), _), rest)) => {
+            let n = FOR_LOOPS.with(|c| { c.set(c.get() + 1); c.get() });
+            Ok(format!("(match for_loop_{} with Some r => r | None => {} end)", n, block(rest)?))
+        }
         Some((other, _)) => Err(format!("statement outside subset: {}", other.to_token_stream())),
     }
 }
@@ -170,7 +204,13 @@ fn local_stmt(l: &Local, k: &str) -> R<String> {
     if init.diverge.is_some() {
         return Err("let-else outside subset".into());
     }
-    Ok(format!("(let {} := {} in {})", name, expr(&init.expr)?, k))
+    match expr(&init.expr) {
+        Ok(e) => Ok(format!("(let {} := {} in {})", name, e, k)),
+        // a binding that the translated continuation never reads (it feeds an untranslated `for` loop) is dropped;
+        // assumption: its initialiser has no side effect
+        Err(_) if !mentions(k, &name) => Ok(k.to_string()),
+        Err(e) => Err(e),
+    }
 }
 fn stmts_k(stmts: &[Stmt], k: &str) -> R<String> {
     match stmts.split_first() {
@@ -178,8 +218,43 @@ fn stmts_k(stmts: &[Stmt], k: &str) -> R<String> {
         Some((Stmt::Expr(Expr::Return(r), _), _)) => expr(r.expr.as_ref().ok_or("return without value")?),
         Some((Stmt::Expr(Expr::If(i), _), rest)) => if_stmt(i, &stmts_k(rest, k)?),
         Some((Stmt::Local(l), rest)) => local_stmt(l, &stmts_k(rest, k)?),
+        Some((Stmt::Expr(Expr::Match(m), _), rest)) => {
+            let k2 = stmts_k(rest, k)?;
+            arms_k(&expr(&m.expr)?, &m.arms, &k2)
+        }
+        // a `for` loop is not translated: it becomes an oracle parameter `for_loop_<n>` that says whether the loop returned
+        // (and what) or fell through; the kernel's header declares it and the theorems quantify over it
+        Some((Stmt::Expr(Expr::ForLoop(_), _), rest)) => {
+            let n = FOR_LOOPS.with(|c| { c.set(c.get() + 1); c.get() });
+            Ok(format!("(match for_loop_{} with Some r => r | None => {} end)", n, stmts_k(rest, k)?))
+        }
         Some((other, _)) => Err(format!("statement outside subset: {}", other.to_token_stream())),
     }
+}
+/// a `match` in statement position: an arm is `()` (go on), a `return`, or a block of statements
+fn arms_k(scrut: &str, arms_: &[Arm], k: &str) -> R<String> {
+    let mut out = format!("match {} with", scrut);
+    for (idx, a) in arms_.iter().enumerate() {
+        let body = match &*a.body {
+            Expr::Tuple(t) if t.elems.is_empty() => k.to_string(),
+            Expr::Return(r) => expr(r.expr.as_ref().ok_or("return without value")?)?,
+            Expr::Block(b) => stmts_k(&b.block.stmts, k)?,
+            other => return Err(format!("arm of a statement match outside subset: {}", other.to_token_stream())),
+        };
+        match &a.guard {
+            None => {
+                write!(out, "\n  | {} => {}", pat(&a.pat)?, body).unwrap();
+                if matches!(a.pat, Pat::Wild(_)) {
+                    break;
+                }
+            }
+            Some((_, g)) => {
+                let rest = arms_k(scrut, &arms_[idx + 1..], k)?;
+                write!(out, "\n  | {} => if {} then {} else ({})", pat(&a.pat)?, expr(g)?, body, rest).unwrap();
+            }
+        }
+    }
+    Ok(out + "\n  end")
 }
 fn if_stmt(i: &ExprIf, k: &str) -> R<String> {
     let els = match &i.else_branch {
@@ -190,6 +265,9 @@ fn if_stmt(i: &ExprIf, k: &str) -> R<String> {
             _ => return Err("else branch outside subset".into()),
         },
     };
+    if let Expr::Let(l) = &*i.cond {
+        return Ok(format!("(match {} with {} => {} | _ => {} end)", expr(&l.expr)?, pat(&l.pat)?, stmts_k(&i.then_branch.stmts, k)?, els));
+    }
     Ok(format!("(if {} then {} else {})", cond(&i.cond)?, stmts_k(&i.then_branch.stmts, k)?, els))
 }
 
@@ -239,6 +317,12 @@ const KERNELS: &[Kernel] = &[
         module: "SemiRule",
     },
     Kernel {
+        file: "src/context.rs",
+        name: "should_format_node",
+        funcs: &[("should_format_node", "Definition should_format_node (formatting_disabled : bool) (for_loop_1 : option FormatNode) (range : option FormatRange) (node : NodePos) : FormatNode :=")],
+        module: "ShouldFormat",
+    },
+    Kernel {
         file: "src/formatters/general.rs",
         name: "quote_choice",
         funcs: &[("get_quote_to_use", "Definition get_quote_to_use (quote_style : QuoteStyle) (literal : list Ascii.ascii) : StringLiteralQuoteType :=")],
@@ -246,6 +330,17 @@ const KERNELS: &[Kernel] = &[
     },
 ];
 
+/// body of a free function or of a method of any impl block
+fn find_body<'a>(f: &'a File, name: &str) -> Option<&'a Block> {
+    f.items.iter().find_map(|it| match it {
+        Item::Fn(func) if func.sig.ident == name => Some(&*func.block),
+        Item::Impl(im) => im.items.iter().find_map(|ii| match ii {
+            ImplItem::Fn(m) if m.sig.ident == name => Some(&m.block),
+            _ => None,
+        }),
+        _ => None,
+    })
+}
 fn find_fn<'a>(f: &'a File, name: &str) -> Option<&'a ItemFn> {
     f.items.iter().find_map(|it| match it {
         Item::Fn(func) if func.sig.ident == name => Some(func),
@@ -485,8 +580,9 @@ fn main() {
                 k.funcs.iter().map(|f| f.0).collect::<Vec<_>>().join(", ")
             );
             for (name, header) in k.funcs {
-                let func = find_fn(&f, name).ok_or(format!("function {} not found in {}", name, k.file))?;
-                let body = block(&func.block.stmts)?;
+                let func = find_body(&f, name).ok_or(format!("function {} not found in {}", name, k.file))?;
+                FOR_LOOPS.with(|c| c.set(0));
+                let body = block(&func.stmts)?;
                 text += &format!("{}\n  {}.\n", header, body);
             }
             Ok(text)
